@@ -84,6 +84,9 @@ ASSUMPTIONS = [
 STATE_FILE = "accessory.state"
 POINTS = ("mktemp", "snapshot", "write", "close", "replace", "exists", "remove")
 CLEANUP_POINTS = ("exists", "remove")
+# what a failing file-system call realistically reports (the third element of a fault: [point, nth, kind];
+# "os" = ENOSPC, "none" = an OSError without errno, "rt" = not an OSError at all)
+ERRNOS = ("os", "EBUSY", "EXDEV", "EACCES", "EIO", "EINTR", "none")
 INIT_ID = 900000
 HANG_S = 20.0
 
@@ -145,6 +148,32 @@ class FileProxy:
                 self._f.close()
                 raise
         return self._f.close()
+
+    def __getattr__(self, n):
+        return getattr(self._f, n)
+
+
+class OpenProxy:
+    """A file in our directory that the save opened for writing by itself (not through tempfile):
+    reports each write (shutil.copyfileobj and hand-written copies go through it)."""
+
+    def __init__(self, hooks: "Hooks", f):
+        self._h = hooks
+        self._f = f
+
+    def write(self, data):
+        self._h.ev("fwrite")
+        return self._f.write(data)
+
+    def __enter__(self):
+        self._f.__enter__()
+        return self
+
+    def __exit__(self, et, ev, tb):
+        return self._f.__exit__(et, ev, tb)
+
+    def __iter__(self):
+        return iter(self._f)
 
     def __getattr__(self, n):
         return getattr(self._f, n)
@@ -245,6 +274,7 @@ class Hooks:
         # not a step of the modelled program, but a place where an I/O error can strike
         if isinstance(mode, str) and any(c in mode for c in "wax+") and self._mine(file):
             self.ev("open")
+            return OpenProxy(self, self._orig["open"](file, mode, *a, **kw))
         return self._orig["open"](file, mode, *a, **kw)
 
     def _sendfile(self, *a, **kw):
@@ -363,9 +393,13 @@ class Ctl:
         if d:
             time.sleep(d)
         if hit:
-            if self.kinds.get((job, point, n)) == "rt":
+            kind = self.kinds.get((job, point, n), "os")
+            if kind == "rt":
                 raise InjectedBug(f"injected non-I/O failure at {point}#{n}")
-            raise Injected(errno.ENOSPC, f"injected fault at {point}#{n}")
+            if kind == "none":
+                raise Injected(f"injected fault at {point}#{n}")  # an OSError that carries no errno
+            code = errno.ENOSPC if kind == "os" else getattr(errno, kind)
+            raise Injected(code, f"injected fault at {point}#{n}")
 
     def finish(self, job, outcome):
         with self.cond:
@@ -962,8 +996,13 @@ def crash_scenarios(ctx: Ctx) -> List[dict]:
     # tier, every 7th (seeded offset) in the quick tier
     # fault pair (failing call, kill): the install call fails, then the process is killed at every later
     # line of any Python frame of that save (a fallback path taken only after the failure lives there)
-    for p in ("replace", "close"):
-        out.append(dict(out[0], name=f"{p}-fails-then-killed", deep=True, faults=[[p, 1]]))
+    kinds = list(ERRNOS[1:])
+    rng.shuffle(kinds)
+    kinds = ["os", "EBUSY", "EXDEV"] + [k for k in kinds if k not in ("EBUSY", "EXDEV")][: (1 if ctx.quick else 9)]
+    for kind in kinds:
+        f = ["replace", 1] + ([kind] if kind != "os" else [])
+        out.append(dict(out[0], name=f"replace-fails-{kind}-then-killed", deep=True, faults=[f]))
+    out.append(dict(out[0], name="close-fails-then-killed", deep=True, faults=[["close", 1]]))
     if ctx.quick:
         out.append(dict(out[0], name="add-second-controller-every-python-frame", deep=True, stride=7, offset=rng.randrange(1, 8)))
     else:
@@ -1009,7 +1048,7 @@ def fault_case(ctx: Ctx, scn: dict, saves: List[List[list]], model_cases: list, 
                 allowed = [on_disk, new] if (fired or raised) else [new]
                 which, why = judge_file(rig.path, allowed)
                 temps = rig.temps()
-                desc = f"save {i} with injected faults {[(p, n) for _, p, n in fired]}"
+                desc = f"save {i} with injected faults {[(p, n, ctl.kinds.get((jj, p, n), 'os')) for jj, p, n in fired]}"
                 if which is None:
                     sig = "C15:failed-save-leaves-incomplete-state-file" if (fired or raised) else "C15:save-does-not-store-new-state"
                     ctx.fail(sig, f"{desc} ({'raised ' + type(r).__name__ if raised else 'returned'}): {why}", replay)
@@ -1074,25 +1113,47 @@ def fault_stream(ctx: Ctx, model_cases: list):
             fault_case(ctx, scn, [[[p, 1, "rt"]]], model_cases)
         for n in sorted({1, 2, max(per_point["write"] // 2, 1), max(per_point["write"], 1)}):
             fault_case(ctx, scn, [[["write", n, "rt"]]], model_cases)
-        # fault pairs, adaptively: a first fault, then a second one at each wrapped call the save still makes
-        # afterwards (whatever path it takes then: cleanup, or a fallback way of installing the file)
-        for first in (["mktemp", 1], ["snapshot", 1], ["write", 1], ["close", 1], ["replace", 1]):
-            ctx.last_fault_log = []
-            fault_case(ctx, scn, [[first]], model_cases)
+        # fault sequences, adaptively: a first fault with each realistic errno, then a further fault at each
+        # wrapped call the save still makes afterwards (whatever path it takes then: cleanup, or a fallback way
+        # of installing the file, which may depend on the errno), up to three faults in one save
+        def followers_of(log):
             seen: Dict[str, int] = {}
-            followers = []
-            struck = False
-            for j, pt, oc in ctx.last_fault_log:
-                if j != 0 or pt in ("begin", "end", "spawn", "mutate"):
-                    continue
+            out, last = [], -1
+            evs = [(pt, oc) for jj, pt, oc in log if jj == 0 and pt not in ("begin", "end", "spawn", "mutate")]
+            for idx, (pt, oc) in enumerate(evs):
+                if oc == "fault":
+                    last = idx
+            for idx, (pt, oc) in enumerate(evs):
                 seen[pt] = seen.get(pt, 0) + 1
-                if struck:
-                    followers.append([pt, seen[pt]])
-                elif oc == "fault":
-                    struck = True
-            for second in followers[:12]:
-                fault_case(ctx, scn, [[first, second]], model_cases)
-                st.hit("op", "fault-pair")
+                if last >= 0 and idx > last:
+                    out.append([pt, seen[pt]])
+            return out
+
+        budget = [ctx.n(400, 4000)]
+
+        def explore(prefix, depth):
+            if budget[0] <= 0:
+                return
+            budget[0] -= 1
+            ctx.last_fault_log = []
+            fault_case(ctx, scn, [prefix], model_cases)
+            if len(prefix) > 1:
+                st.hit("op", "fault-sequence-of-%d" % len(prefix))
+            if depth >= 3:
+                return
+            fol = followers_of(ctx.last_fault_log)
+            # consecutive writes of one copy are alike: first, second and last of each run of a point
+            keep = []
+            for pt in dict.fromkeys(f[0] for f in fol):
+                same = [f for f in fol if f[0] == pt]
+                keep += same[:2] + same[-1:] if len(same) > 3 else same
+            for nxt in keep:
+                for kind in (("os", "EIO") if depth < 2 else ("os",)):
+                    explore(prefix + [nxt + ([kind] if kind != "os" else [])], depth + 1)
+
+        for first in (["replace", 1], ["close", 1], ["write", 1], ["snapshot", 1], ["mktemp", 1]):
+            for kind in ERRNOS:
+                explore([first + ([kind] if kind != "os" else [])], 1)
         # a fault that provokes the cleanup, combined with a fault in the cleanup itself
         for p in ("snapshot", "write", "close", "replace"):
             for c in CLEANUP_POINTS:
